@@ -106,10 +106,15 @@ func (g *c08Gen) nodeSelectors() []metav1.LabelSelector {
 	var out []metav1.LabelSelector
 	n := vfPick(r, []int{0, 0, 1, 1, 2})
 	for i := 0; i < n; i++ {
-		switch r.Intn(3) {
-		case 0:
+		switch r.Intn(7) {
+		case 3: // the empty selector (selects every node), alone or next to others
+			out = append(out, metav1.LabelSelector{})
+		case 4: // values listed in an order that is not the alphabetical one
+			out = append(out, metav1.LabelSelector{MatchExpressions: []metav1.LabelSelectorRequirement{{
+				Key: "zone", Operator: metav1.LabelSelectorOpIn, Values: []string{"c", "a", "b"}[:r.Range(2, 3)]}}})
+		case 0, 5:
 			out = append(out, metav1.LabelSelector{MatchLabels: map[string]string{"zone": vfPick(r, []string{"a", "b", "c"})}})
-		case 1:
+		case 1, 6:
 			out = append(out, metav1.LabelSelector{MatchLabels: map[string]string{"rack": vfPick(r, []string{"1", "2"})}})
 		default:
 			out = append(out, metav1.LabelSelector{MatchExpressions: []metav1.LabelSelectorRequirement{{
